@@ -164,7 +164,8 @@ class ODataLexer(Lexer):
     @_(_DATE + r"T" + _TIME + r"?(Z|[+-](?:[01]\d|2[0-3]):[0-5]\d)?")
     def DATETIME(self, t):
         ":meta private:"
-        t.value = ast.DateTime(t.value)
+        # The lexer is case-insensitive: normalise the `T` separator and the `Z` suffix.
+        t.value = ast.DateTime(t.value.upper())
         return t
 
     @_(_DATE)
